@@ -217,6 +217,7 @@ def resolver(
                 register_serialized(
                     alias=alias2,
                     conversion=conversion,
+                    order=order,
                     schema=schema,
                     error_handler=error_handler,
                     owner=owner,
